@@ -185,6 +185,20 @@ static std::string callv(const std::string& key, const std::vector<Integer>& a) 
         return hz(g);
     }
     if (key == "pollard") { Integer g(-7); IF.Pollard(gen, g, n, (unsigned long)(uint64_t)a[1]); return hz(g); }
+    if (key == "pollards") {       // Pollard(gen, g, n, loops) right after Integer::seeding(seed); the start values it draws (one mpz_urandomm(n) per
+        uint64_t sd = (uint64_t)a[2];          // (re)try) are recomputed with a GMP state of our own:  "pollards n loops seed = k y0 … y(k-1) g"
+        const int K = 8;
+        std::string ys;
+        if (n >= 3) {
+            gmp_randstate_t st; gmp_randinit_default(st); gmp_randseed_ui(st, (unsigned long)sd);
+            for (int i = 0; i < K; ++i) { Integer y; mpz_urandomm(y.get_mpz(), st, n.get_mpz_const()); ys += " " + hz(y); }
+            gmp_randclear(st);
+        } else for (int i = 0; i < K; ++i) ys += " 0";
+        Integer::seeding(sd);
+        Integer g(-7);
+        IF.Pollard(gen, g, n, (unsigned long)(uint64_t)a[1]);
+        return vp::hex_ull(K) + ys + " " + hz(g);
+    }
     if (key == "factorl") { Integer r(-7); IF.factor(r, n, (unsigned long)(uint64_t)a[1]); return hz(r); }                  // the overloads with a bound
     if (key == "iffactorprimel") { Integer r(-7); std::streambuf* old = std::cerr.rdbuf(nullptr); IF.iffactorprime(r, n, (unsigned long)(uint64_t)a[1]); std::cerr.rdbuf(old); return hz(r); }   // on Pollard's loops
     if (key == "fermat") { Integer f(-7); FD.fermat(f, (size_t)(uint64_t)n); return hz(f); }
@@ -332,7 +346,7 @@ static void runv(const std::string& key, const std::vector<Integer>& a) {
     }
 }
 static bool is_vkey(const std::string& k) {
-    for (const char* v : {"lenstra", "pollard", "fermat", "pepin", "isprimer", "localprime", "tabule", "tabule2", "miller", "lehmann", "lehmannb", "millers", "lehmanns", "factorl", "iffactorprimel",
+    for (const char* v : {"lenstra", "pollard", "fermat", "pepin", "isprimer", "localprime", "tabule", "tabule2", "miller", "lehmann", "lehmannb", "millers", "lehmanns", "factorl", "iffactorprimel", "pollards",
                           "write", "erat", "factorL", "setL", "divinto", "divalias", "setinto", "set1into", "eratinto", "writeinto"}) if (k == v) return true;
     return false;
 }
@@ -522,10 +536,21 @@ static void gen(const std::string& tier, uint64_t seed) {
             Integer g1, g2;
             bool dom = n < 3 || (isOne(gcd(g1, n, Integer(223092870))) && isOne(gcd(g2, n, Integer("10334565887047481278774629361"))));
             if (dom) for (unsigned long loops : {0UL, 1UL, 3UL, 100UL}) runv("pollard", {n, Integer((uint64_t)loops)});
+            // the same with the generator seeded, so that the start values of the rho iteration are known to the model
+            if (dom) for (unsigned long loops : {0UL, 1UL, 2UL, 3UL, 4UL, 5UL, 9UL, 17UL, 100UL, 100000UL}) runv("pollards", {n, Integer((uint64_t)loops), Integer((uint64_t)g.below(1u << 30))});
         }
         runv("lenstra", {n, Integer(2000), Integer(8)});
         if ((i % 3) == 0) runv("lenstra", {n, Integer(30), Integer(2)});       // a bound so small that the documented failure value is produced
         runv("write", {n});
+    }
+    {   // rho on every product of two primes of {101 … 199} (squares included: the iteration fails with g = n for some starts and is retried),
+        // several seeds and bounds each
+        const unsigned long R[] = {101, 103, 107, 109, 113, 127, 131, 137, 139, 149, 151, 157, 163, 167, 173, 179, 181, 191, 193, 197, 199};
+        for (unsigned long p1 : R) for (unsigned long p2 : R) if (p1 <= p2 && (th || ((p1 + p2) % 3 == 0) || p1 == p2))
+            for (int sd = 0; sd < (th ? 6 : 2); ++sd)
+                for (unsigned long loops : {0UL, 2UL, 6UL, 40UL}) runv("pollards", {Integer((uint64_t)(p1 * p2)), Integer((uint64_t)loops), Integer((uint64_t)g.below(1u << 30))});
+        for (unsigned long p1 : R) runv("pollards", {Integer((uint64_t)p1), Integer(0), Integer(5)});       // primes: returned as they are
+        for (long n = -3; n < 3; ++n) runv("pollards", {Integer((int64_t)n), Integer(0), Integer(5)});       // n < 3
     }
     for (int i = 0; i < (th ? 200 : 40); ++i) {        // Lenstra on semiprimes / prime squares / primes of 20..80 bits
         unsigned b1 = 10 + (unsigned)g.below(31), b2 = 10 + (unsigned)g.below(31);
